@@ -36,6 +36,7 @@ use syn::*;
 
 mod t6w;
 mod t6r;
+mod t6r2;
 
 const FEATURES: &[&str] = &["aes-crypto", "bzip2", "deflate", "time", "zstd"];
 
@@ -266,6 +267,7 @@ fn expr_attrs(e: &Expr) -> &[Attribute] {
         Expr::Return(x) => &x.attrs,
         Expr::Macro(x) => &x.attrs,
         Expr::Match(x) => &x.attrs,
+        Expr::Lit(x) => &x.attrs,
         _ => &[],
     }
 }
@@ -725,6 +727,9 @@ impl<'a> Tr<'a> {
                         return r;
                     }
                 }
+                if let Some(r) = self.t6r2_ty(&name, &args) {
+                    return r;
+                }
                 match name.as_str() {
                     "Self" => self.self_ty.clone().map(|s| format!("Gen.{s}")).ok_or("Self outside impl".into()),
                     "Wrapping" => Ok(format!("(Rs.Wrapping {})", self.ty(args[0])?)),
@@ -1062,6 +1067,9 @@ impl<'a> Tr<'a> {
                 let n = self.expr(&rp.len)?;
                 Ok(format!("(Rs.vecZeros {n})"))
             }
+            Expr::Macro(m) if path_last(&m.mac.path) == "matches" => self.t6r2_matches(m),
+            // Pure mode: `panic!(..)` is the `none` of the panic monad
+            Expr::Macro(m) if path_last(&m.mac.path) == "panic" && self.mode == Mode::Pure => Ok(self.bind_m("none".into())),
             Expr::Macro(m) => Err(format!("macro {}", path_last(&m.mac.path))),
             other => Err(format!("unsupported expression at line {}", other.span().start().line)),
         }
@@ -1174,6 +1182,13 @@ impl<'a> Tr<'a> {
     fn block_value(&mut self, b: &Block) -> R<String> {
         let exp = self.expect.take();
         let tail = std::mem::take(&mut self.tail);
+        // statements switched off by `#[cfg(..)]` do not exist
+        let live: Vec<Stmt> = b.stmts.iter().filter(|s| match s {
+            Stmt::Expr(e, _) => cfg_on(expr_attrs(e)),
+            Stmt::Local(l) => cfg_on(&l.attrs),
+            _ => true,
+        }).cloned().collect();
+        let b = &Block { brace_token: b.brace_token, stmts: live };
         let n = b.stmts.len();
         for (i, s) in b.stmts.iter().enumerate() {
             if i + 1 == n {
@@ -1181,6 +1196,13 @@ impl<'a> Tr<'a> {
                     if cfg_on(expr_attrs(e)) {
                         self.expect = exp;
                         self.tail = tail;
+                        return self.expr(e);
+                    }
+                }
+                // Pure mode: `…; return e;` at the end of the function body: `e` is the value
+                if let (Stmt::Expr(Expr::Return(r), Some(_)), Mode::Pure, true) = (s, &self.mode, self.indent == 1 && self.in_loop == 0) {
+                    if let Some(e) = &r.expr {
+                        self.expect = exp;
                         return self.expr(e);
                     }
                 }
@@ -1341,6 +1363,7 @@ impl<'a> Tr<'a> {
                 Ok(inner?.join(" | "))
             }
             Pat::Rest(_) => Ok("..".into()),
+            Pat::Struct(ps) => self.t6r2_pat_struct(ps),
             _ => Err("unsupported pattern".into()),
         }
     }
@@ -1589,6 +1612,9 @@ impl<'a> Tr<'a> {
         if let Some(r) = self.t6r_call(&first, &name, c, exp.clone())? {
             return Ok(r);
         }
+        if let Some(r) = self.t6r2_call(&first, &name, c)? {
+            return Ok(r);
+        }
         let _ = exp;
         let args: R<Vec<String>> = c.args.iter().map(|a| self.expr(a)).collect();
         let args = args?;
@@ -1735,6 +1761,9 @@ impl<'a> Tr<'a> {
         }
         let exp = self.expect.take();
         if let Some(r) = self.t6r_method(m)? {
+            return Ok(r);
+        }
+        if let Some(r) = self.t6r2_unwrap(m)? {
             return Ok(r);
         }
         // integer.try_into() : the target type comes from the context
@@ -3586,6 +3615,10 @@ fn main() {
                     }
                 }
                 "struct" | "sstruct" => { reg.structs.insert(name.clone()); }
+                "xstruct" => { t6r2::register_gstruct(name); }
+                "xfn" => {
+                    reg.methods.insert(name.clone(), MethodInfo { mut_self: false, has_self: false, unit_ret: false, fi: FnInfo { mode: Mode::Pure, writer_idx: None, seek: false, ret: None } });
+                }
                 "aconst" => { reg.aconsts.insert(name.clone(), ()); }
                 "errfn" => {
                     for it in &all {
@@ -3762,6 +3795,9 @@ fn main() {
                                             fieldless = false;
                                             let ts: R<Vec<String>> = u.unnamed.iter().map(|f| tr.ty(&f.ty)).collect();
                                             let ts = ts?;
+                                            if ts.iter().any(|t| !t6r2::derivable_payload(t)) {
+                                                opaque_payload = true;
+                                            }
                                             let binders: Vec<String> = ts.iter().enumerate().map(|(i, t)| format!("(a{i} : {t})")).collect();
                                             writeln!(s, "  | {} {}", v.ident, binders.join(" ")).unwrap();
                                         }
@@ -3778,6 +3814,8 @@ fn main() {
                                 }
                                 if !opaque_payload {
                                     s += "  deriving DecidableEq, Repr\n";
+                                } else {
+                                    t6r2::mark_no_derive(name);
                                 }
                                 if fieldless {
                                     writeln!(s, "\ndef Gen.{name}.discr : Gen.{name} → UInt64").unwrap();
@@ -3877,6 +3915,18 @@ fn main() {
                                         }
                                     }
                                 }
+                            }
+                        }
+                        Err("not found".into())
+                    }
+                    "xstruct" => Ok((format!("-- structure `{name}`: declared by another generated module (imported)\n"), String::from("-"), 0, 0)),
+                    "xfn" => {
+                        // the function must exist in the source (its text is translated by the module that declares it)
+                        let (ty, m) = name.split_once("::").ok_or("xfn needs Type::f")?;
+                        for ast in asts.values() {
+                            let all2: Vec<&Item> = ast.items.iter().collect();
+                            if t6l::find_method(&all2, ty, m).is_some() {
+                                return Ok((format!("-- fn `{name}`: declared by another generated module (imported)\n"), String::from("-"), 0, 0));
                             }
                         }
                         Err("not found".into())
